@@ -218,13 +218,27 @@ def run_botp(ctx, c):
         for i in range(c["steps"]):
             if (c["relmask"] >> i) & 1:
                 S.reloc(); rel += 1
-            o = x.out(digit + 1)
-            x.call("botpHOTPStepR", o, S.b, ret="v")
             e = x.out(digit + 1)
             if x.call("botpHOTPRand", e, digit, K, len(key), x.buf(cur)):
                 raise Fail("botpHOTPRand failed")
-            if o.read() != e.read():
-                raise Fail("HOTP step %d: stepped %r != one-shot %r (ctr=%s relocations %d)" % (i, o.read(), e.read(), cur.hex(), rel))
+            how = (c["vmask"] >> (2 * i)) & 3
+            if how == 1:
+                # verify a wrong password: FALSE, counter unchanged
+                bad = bytearray(e.read()); bad[i % digit] = 0x30 + (bad[i % digit] - 0x30 + 1 + i) % 10
+                if x.call("botpHOTPStepV", x.buf(bytes(bad)), S.b) != 0:
+                    raise Fail("HOTP StepV accepted a wrong password")
+                g = x.out(8); x.call("botpHOTPStepG", g, S.b, ret="v")
+                if g.read() != cur:
+                    raise Fail("HOTP: counter changed by a failed StepV: %s -> %s" % (cur.hex(), g.read().hex()))
+                continue
+            if how == 2:
+                if x.call("botpHOTPStepV", x.buf(e.read()), S.b) != 1:
+                    raise Fail("HOTP StepV rejected the right password (step %d, ctr %s)" % (i, cur.hex()))
+            else:
+                o = x.out(digit + 1)
+                x.call("botpHOTPStepR", o, S.b, ret="v")
+                if o.read() != e.read():
+                    raise Fail("HOTP step %d: stepped %r != one-shot %r (ctr=%s relocations %d)" % (i, o.read(), e.read(), cur.hex(), rel))
             cur = ((int.from_bytes(cur, "big") + 1) % (1 << 64)).to_bytes(8, "big")
             g = x.out(8); x.call("botpHOTPStepG", g, S.b, ret="v")
             if g.read() != cur:
@@ -269,9 +283,13 @@ def run_botp(ctx, c):
         x.call("botpOCRAStepS", S.b, x.buf(ctr) if useC else None, p, s, ret="v")
         cur = ctr
         dg = int(suite.split(":")[1].split("-")[-1])
+        q0 = q
         for i in range(c["steps"]):
             if (c["relmask"] >> i) & 1:
                 S.reloc(); rel += 1
+            # a fresh question of its own length at every step (shorter and longer than the previous one)
+            ql = max(4, min(2 * qmax, (c["qlen"] * (7 * i + 1) + 13 * i) % (2 * qmax + 1)))
+            q = q0[:ql] if ql <= len(q0) else (q0 * (ql // len(q0) + 1))[:ql]
             o = x.out(dg + 1)
             x.call("botpOCRAStepR", o, x.buf(q), len(q), t, S.b, ret="v")
             e = x.out(dg + 1)
@@ -281,6 +299,24 @@ def run_botp(ctx, c):
             if o.read() != e.read():
                 raise Fail("OCRA %s step %d: stepped %r != one-shot %r (relocations %d)" % (suite, i, o.read(), e.read(), rel))
             if useC:
+                cur = ((int.from_bytes(cur, "big") + 1) % (1 << 64)).to_bytes(8, "big")
+            how = (c["vmask"] >> (2 * i)) & 3
+            if how:
+                # verification on the same state: a wrong password leaves the counter, the right one advances it
+                e2 = x.out(dg + 1)
+                x.call("botpOCRARand", e2, cstr(x, suite), K, len(key), x.buf(q), len(q), x.buf(cur) if useC else None, p, s, t)
+                if how == 1:
+                    bad = bytearray(e2.read()); bad[0] = 0x30 + (bad[0] - 0x30 + 3) % 10
+                    if x.call("botpOCRAStepV", x.buf(bytes(bad)), x.buf(q), len(q), t, S.b) != 0:
+                        raise Fail("OCRA StepV accepted a wrong password")
+                    if useC:
+                        g = x.out(8); x.call("botpOCRAStepG", g, S.b, ret="v")
+                        if g.read() != cur:
+                            raise Fail("OCRA: counter changed by a failed StepV")
+                    continue
+                if x.call("botpOCRAStepV", x.buf(e2.read()), x.buf(q), len(q), t, S.b) != 1:
+                    raise Fail("OCRA StepV rejected the right password (%s step %d)" % (suite, i))
+            if useC and how:
                 cur = ((int.from_bytes(cur, "big") + 1) % (1 << 64)).to_bytes(8, "big")
         ctx.cls("ocra_" + "".join(f[0] for f in data))
     ctx.cls(kind)
@@ -302,7 +338,7 @@ def suites():
 
 S_BOTP = st.fixed_dictionaries({
     "kind": st.sampled_from(["HOTP", "TOTP", "OCRA"]), "seed": st.binary(min_size=1, max_size=4).map(bytes.hex), "klen": st.sampled_from([0, 1, 16, 32, 33, 64]),
-    "digit": st.sampled_from([6, 7, 8]), "ctr": st.sampled_from(["zero", "ff", "ff4", "rnd"]), "steps": st.integers(1, 4), "relmask": st.integers(0, 15),
+    "digit": st.sampled_from([6, 7, 8]), "ctr": st.sampled_from(["zero", "ff", "ff4", "rnd"]), "steps": st.integers(1, 5), "relmask": st.integers(0, 31), "vmask": st.integers(0, 1023),
     "suite": suites(), "qlen": st.integers(4, 128)})
 
 
